@@ -59,17 +59,15 @@ pub fn kmeans_spec() -> BuilderSpec {
 
 fn kmeans<F: Float>(case: &Case, spec: &BuilderSpec, out: &mut Outcome) {
     let ds = DatasetBase::from(blobs::<F>());
-    let make = || {
-        KMeans::<F, L2Dist>::params_with(case.u("n_clusters") as usize, Xoshiro256Plus::seed_from_u64(42), L2Dist)
-            .n_runs(case.u("n_runs") as usize)
-            .tolerance(F::cast(case.f("tolerance")))
-            .max_n_iterations(case.u("max_n_iterations"))
-    };
+    // n_clusters is a constructor argument (no setter): the history keeps it fixed
+    let base = || KMeans::<F, L2Dist>::params_with(case.u("n_clusters") as usize, Xoshiro256Plus::seed_from_u64(42), L2Dist);
+    let set = |mut p: linfa_clustering::KMeansParams<F, Xoshiro256Plus, L2Dist>, c: &Case| { if c.moved(&["n_runs"]) { p = p.n_runs(c.u("n_runs") as usize); } if c.moved(&["tolerance"]) { p = p.tolerance(F::cast(c.f("tolerance"))); } if c.moved(&["max_n_iterations"]) { p = p.max_n_iterations(c.u("max_n_iterations")); } p };
+    let make = || set(base(), case);
     let ops = vec![
         op(&make, "fit", |p| p.fit(&ds).map(|m| dbg(&m)).map_err(|e: KMeansError| dbg(&e)), |p| p.fit(&ds).map(|m| dbg(&m)).map_err(|e: KMeansError| dbg(&e)), |e| dbg(&KMeansError::from(e))),
         op(&make, "fit_with", |p| p.fit_with(None, &ds).map(|m| dbg(&m)).map_err(|e: IncrKMeansError<_>| dbg(&e)), |p| p.fit_with(None, &ds).map(|m| dbg(&m)).map_err(|e: IncrKMeansError<_>| dbg(&e)), |e| dbg(&IncrKMeansError::<KMeans<F, L2Dist>>::from(e))),
     ];
-    judge(case, spec, &make, &|p| dbg(p), &|c| dbg(c), ops, out);
+    judge(case, spec, &base, &set, Some(&|p| p.clone()), &|p| dbg(p), &|c| dbg(c), ops, out);
 }
 
 // ------------------------------------------------------------------------------------------
@@ -99,12 +97,14 @@ pub fn dbscan_spec() -> BuilderSpec {
 
 fn dbscan<F: Float>(case: &Case, spec: &BuilderSpec, out: &mut Outcome) {
     let data = blobs::<F>();
-    let make = || Dbscan::params::<F>(case.u("min_points") as usize).tolerance(F::cast(case.f("tolerance")));
+    let base = || Dbscan::params::<F>(case.u("min_points") as usize);
+    let set = |mut p: linfa_clustering::DbscanParams<F, L2Dist, linfa_nn::CommonNearestNeighbour>, c: &Case| { if c.moved(&["tolerance"]) { p = p.tolerance(F::cast(c.f("tolerance"))); } p };
+    let make = || set(base(), case);
     let ops = vec![
         op(&make, "transform", |p| p.transform(&data).map(|m| dbg(&m)).map_err(|e| dbg(&e)), |p| Ok(dbg(&p.transform(&data))), |e| dbg(&e)),
         op(&make, "transform_dataset", |p| p.transform(DatasetBase::from(data.clone())).map(|m| dbg(m.targets())).map_err(|e| dbg(&e)), |p| Ok(dbg(p.transform(DatasetBase::from(data.clone())).targets())), |e| dbg(&e)),
     ];
-    judge(case, spec, &make, &|p| dbg(p), &|c| dbg(c), ops, out);
+    judge(case, spec, &base, &set, Some(&|p| p.clone()), &|p| dbg(p), &|c| dbg(c), ops, out);
 }
 
 pub fn optics_spec() -> BuilderSpec {
@@ -131,9 +131,11 @@ pub fn optics_spec() -> BuilderSpec {
 
 fn optics<F: Float>(case: &Case, spec: &BuilderSpec, out: &mut Outcome) {
     let data = blobs::<F>();
-    let make = || Optics::params::<F>(case.u("min_points") as usize).tolerance(F::cast(case.f("tolerance")));
+    let base = || Optics::params::<F>(case.u("min_points") as usize);
+    let set = |mut p: linfa_clustering::OpticsParams<F, L2Dist, linfa_nn::CommonNearestNeighbour>, c: &Case| { if c.moved(&["tolerance"]) { p = p.tolerance(F::cast(c.f("tolerance"))); } p };
+    let make = || set(base(), case);
     let ops = vec![op(&make, "transform", |p| p.transform(data.view()).map(|m| dbg(&m)).map_err(|e| dbg(&e)), |p| Ok(dbg(&p.transform(data.view()))), |e| dbg(&e))];
-    judge(case, spec, &make, &|p| dbg(p), &|c| dbg(c), ops, out);
+    judge(case, spec, &base, &set, Some(&|p| p.clone()), &|p| dbg(p), &|c| dbg(c), ops, out);
 }
 
 // ------------------------------------------------------------------------------------------
@@ -176,15 +178,11 @@ pub fn gmm_spec() -> BuilderSpec {
 
 fn gmm<F: Float>(case: &Case, spec: &BuilderSpec, out: &mut Outcome) {
     let ds = DatasetBase::from(blobs::<F>());
-    let make = || {
-        GaussianMixtureModel::<F>::params(case.u("n_clusters") as usize)
-            .tolerance(F::cast(case.f("tolerance")))
-            .reg_covariance(F::cast(case.f("reg_covar")))
-            .n_runs(case.u("n_runs"))
-            .max_n_iterations(case.u("max_n_iterations"))
-    };
+    let base = || GaussianMixtureModel::<F>::params(case.u("n_clusters") as usize);
+    let set = |mut p: linfa_clustering::GmmParams<F, Xoshiro256Plus>, c: &Case| { if c.moved(&["tolerance"]) { p = p.tolerance(F::cast(c.f("tolerance"))); } if c.moved(&["reg_covar"]) { p = p.reg_covariance(F::cast(c.f("reg_covar"))); } if c.moved(&["n_runs"]) { p = p.n_runs(c.u("n_runs")); } if c.moved(&["max_n_iterations"]) { p = p.max_n_iterations(c.u("max_n_iterations")); } p };
+    let make = || set(base(), case);
     let ops = vec![op(&make, "fit", |p| p.fit(&ds).map(|m| dbg(&m)).map_err(|e: GmmError| dbg(&e)), |p| p.fit(&ds).map(|m| dbg(&m)).map_err(|e: GmmError| dbg(&e)), |e| dbg(&e))];
-    judge(case, spec, &make, &|p| dbg(p), &|c| dbg(c), ops, out);
+    judge(case, spec, &base, &set, Some(&|p| p.clone()), &|p| dbg(p), &|c| dbg(c), ops, out);
 }
 
 // ------------------------------------------------------------------------------------------
@@ -270,8 +268,11 @@ fn hierarchical<F: Float>(case0: &Case, spec: &BuilderSpec, out: &mut Outcome) {
     let case = &hierarchical_effective(case0);
     let data = blobs::<F>();
     let kernel = || Kernel::params().method(KernelMethod::Gaussian(F::cast(5.0))).transform(data.view());
-    let make = || {
-        let mut p = HierarchicalCluster::<F>::default();
+    let base = || HierarchicalCluster::<F>::default();
+    let set = |mut p: HierarchicalCluster<F>, case: &Case| {
+        if !case.moved(&["num_clusters", "max_distance", "order"]) {
+            return p;
+        }
         let nc = case.ou("num_clusters");
         let md = case.of("max_distance");
         if case.s("order") == "clusters_then_distance" {
@@ -291,6 +292,7 @@ fn hierarchical<F: Float>(case0: &Case, spec: &BuilderSpec, out: &mut Outcome) {
         }
         p
     };
+    let make = || set(base(), case);
     let ops = vec![op(&make, "transform", |p| p.transform(kernel()).map(|m| dbg(&canon_partition(m.targets()))).map_err(|e| dbg(&e)), |p| Ok(dbg(&canon_partition(p.transform(kernel()).targets()))), |e| dbg(&e))];
-    judge(case, spec, &make, &|p| dbg(p), &|c| dbg(c), ops, out);
+    judge(case, spec, &base, &set, Some(&|p| p.clone()), &|p| dbg(p), &|c| dbg(c), ops, out);
 }
